@@ -4,8 +4,12 @@ import AtreeModel.Replay.Common
 /-
   Replays the `codec` and `malformed` streams of the harness (harness/cmd/trace/codec.go):
 
-    ENC <dump> <hex> size=<n>   parse the dump back into a model slab; the model's encoding must be
-                                 <hex>, its size <n>; the model's decoding of <hex> must dump as <dump>
+    ENC <hex> size=<n> | <dump> [| <decoded dump>]
+                                parse the dump back into a model slab; its dump must reproduce <dump> (all
+                                stored sizes equal the computed ones), the model's encoding must be <hex>,
+                                its size <n>; the model's decoding of <hex> must dump as <decoded dump>
+                                (= <dump> unless the slab holds compact maps)
+    UMI <hex>                   the model of `cbor.Unmarshal` into a `uint64` gives the next OBS line
     DEC <hex> id=<a>.<i>        the model decoder's outcome is the expected next OBS line
     HDR <hex>                   the three header queries give the expected next OBS line
     CBR <hex>                   the model of the CBOR library's validator (`wfNext`) gives the next OBS line
@@ -50,6 +54,36 @@ def dumpTy : TyInfo → String
   | .plain n => toString n
   | .composite n => "c" ++ toString n
 
+mutual
+/-- `VerifDescribe.sized`; `addr` is the address of the enclosing slab -/
+partial def dumpStor (addr : Nat) : Stor → String
+  | .val s p => s!"{s}:v{p}"
+  | .ref id => s!"{slabIDStorableSize}:R{id.render}"
+  | .some x => s!"{(Stor.some x).size}:W({dumpStor addr x})"
+  | .arr ty idx es =>
+    let sz := (Stor.arr ty idx es).size
+    s!"{sz}:D({addr}.{idx},0.0,{sz},{es.length},1)T({dumpTy ty})[" ++
+      Dump.joinWith "," (es.map (dumpStor addr)) ++ "]"
+  | .map x idx els =>
+    let sz := (Stor.map x idx els).size
+    s!"{sz}:d({addr}.{idx},0.0,{sz},{els.firstKey},1,0,0)T({dumpTy x.ty},{x.count},{x.seed})" ++
+      dumpMEls addr els
+partial def dumpSEl (addr : Nat) : SEl → String
+  | .mk k v => s!"S({(SEl.mk k v).size},{dumpStor addr k},{dumpStor addr v})"
+partial def dumpMEl (addr : Nat) : MEl → String
+  | .single e => dumpSEl addr e
+  | .inl els => s!"I({(MEl.inl els).size},{dumpMEls addr els})"
+  | .ext id => s!"X({(MEl.ext id).size},{id.render})"
+partial def dumpMEls (addr : Nat) : MEls → String
+  | .hkey level hkeys es =>
+    s!"H({level},{(MEls.hkey level hkeys es).size})" ++ "{" ++ Dump.joinWith "," (hkeys.map toString) ++ "}[" ++
+      Dump.joinWith " " (es.map (dumpMEl addr)) ++ "]"
+  | .single level es =>
+    s!"L({level},{(MEls.single level es).size})[" ++ Dump.joinWith " " (es.map (dumpSEl addr)) ++ "]"
+end
+
+def dumpMapExtra (x : MapExtra) : String := s!"T({dumpTy x.ty},{x.count},{x.seed})"
+
 def dumpSlab : Slab → String
   | .data ty s =>
     s!"D({s.hdr.id.render},{s.next.render},{s.hdr.size},{s.hdr.count},{Dump.bool01 s.inlined})" ++
@@ -61,6 +95,18 @@ def dumpSlab : Slab → String
     "{" ++ Dump.joinWith ";" (m.childHdrs.map Dump.hdr3) ++ "}{" ++
     Dump.joinWith "," (m.countSum.map toString) ++ "}"
   | .storable id e => s!"V({id.render},{Dump.elem e})"
+  | .adata a =>
+    s!"D({a.id.render},{a.next.render},{a.size},{a.elems.length},0)" ++
+    (match a.ty with | some t => "T(" ++ dumpTy t ++ ")" | none => "") ++
+    "[" ++ Dump.joinWith "," (a.elems.map (dumpStor a.id.addr)) ++ "]"
+  | .mdata m =>
+    s!"d({m.id.render},{m.next.render},{m.size},{m.els.firstKey},0,{Dump.bool01 m.anySize},{Dump.bool01 m.group})" ++
+    (match m.extra with | some x => dumpMapExtra x | none => "") ++ dumpMEls m.id.addr m.els
+  | .mindex m =>
+    s!"m({m.id.render},{m.size},{m.firstKey})" ++
+    (match m.extra with | some x => dumpMapExtra x | none => "") ++
+    "{" ++ Dump.joinWith ";" (m.childHdrs.map (fun h => s!"{h.id.render}/{h.size}/{h.firstKey}")) ++ "}"
+  | .storableG id x => s!"V({id.render},{dumpStor id.addr x})"
 
 /-- split at the first occurrence of `sep` -/
 def cut (s : String) (sep : String) : Option (String × String) :=
@@ -108,23 +154,251 @@ def parseHdr3 (s : String) : Option Hdr :=
 def stripSuffix (s suffix : String) : Option String :=
   if s.endsWith suffix then some (sdropEnd s suffix.length) else none
 
-def parseDump (s : String) : Option Slab :=
-  if s.startsWith "D(" then do
-    let (hd, rest) ← cut (sdrop s 2) ")"
-    match hd.splitOn "," with
-    | [id, next, size, count, inl] => do
-      let id ← parseID id
-      let next ← parseID next
-      let size ← size.toNat?
-      let count ← count.toNat?
-      let (ty, rest) ← parseOptTy rest
-      if !rest.startsWith "[" then none
-      let body ← stripSuffix (sdrop rest 1) "]"
-      let elems ← parseList "," parseElem body
-      pure (.data ty { hdr := { id := id, size := size, count := count }, next := next, elems := elems,
-                       root := ty.isSome, inlined := inl == "1" })
-    | _ => none
-  else if s.startsWith "M(" then do
+/-! ### recursive-descent parser for the full grammar of `VerifDumpSlab` -/
+
+abbrev P (α : Type) := List Char → Option (α × List Char)
+
+def pLit (lit : String) : P Unit := fun cs =>
+  let l := lit.toList
+  if cs.take l.length == l then some ((), cs.drop l.length) else none
+
+def pNat : P Nat := fun cs =>
+  let ds := cs.takeWhile Char.isDigit
+  if ds.isEmpty then none else some ((String.ofList ds).toNat!, cs.drop ds.length)
+
+def pID : P SlabID := fun cs => do
+  let (a, cs) ← pNat cs
+  let (_, cs) ← pLit "." cs
+  let (i, cs) ← pNat cs
+  pure (⟨a, i⟩, cs)
+
+def pTy : P TyInfo := fun cs =>
+  match cs with
+  | 'c' :: rest => do let (n, cs) ← pNat rest; pure (.composite n, cs)
+  | _ => do let (n, cs) ← pNat cs; pure (.plain n, cs)
+
+/-- `p` separated by `sep`, ended by (and consuming) `close`; possibly empty -/
+partial def pSepUntil {α : Type} (p : P α) (sep close : Char) : P (List α) := fun cs =>
+  match cs with
+  | c :: rest =>
+    if c == close then some ([], rest)
+    else do
+      let (a, cs) ← p cs
+      match cs with
+      | c :: rest =>
+        if c == close then some ([a], rest)
+        else if c == sep then do
+          let (as, cs) ← pSepUntil p sep close rest
+          pure (a :: as, cs)
+        else none
+      | [] => none
+  | [] => none
+
+def pOptMapExtra : P (Option MapExtra) := fun cs =>
+  match pLit "T(" cs with
+  | some (_, cs) => do
+    let (ty, cs) ← pTy cs
+    let (_, cs) ← pLit "," cs
+    let (count, cs) ← pNat cs
+    let (_, cs) ← pLit "," cs
+    let (seed, cs) ← pNat cs
+    let (_, cs) ← pLit ")" cs
+    pure (some { ty := ty, count := count, seed := seed }, cs)
+  | none => some (none, cs)
+
+def pOptTy : P (Option TyInfo) := fun cs =>
+  match pLit "T(" cs with
+  | some (_, cs) => do
+    let (ty, cs) ← pTy cs
+    let (_, cs) ← pLit ")" cs
+    pure (some ty, cs)
+  | none => some (none, cs)
+
+/-- header of an array data slab: `D(id,next,size,count,inl)` -/
+structure ArrHead where
+  id : SlabID
+  next : SlabID
+  size : Nat
+  count : Nat
+  inl : Bool
+
+def pArrHead : P ArrHead := fun cs => do
+  let (_, cs) ← pLit "D(" cs
+  let (id, cs) ← pID cs
+  let (_, cs) ← pLit "," cs
+  let (next, cs) ← pID cs
+  let (_, cs) ← pLit "," cs
+  let (size, cs) ← pNat cs
+  let (_, cs) ← pLit "," cs
+  let (count, cs) ← pNat cs
+  let (_, cs) ← pLit "," cs
+  let (inl, cs) ← pNat cs
+  let (_, cs) ← pLit ")" cs
+  pure ({ id := id, next := next, size := size, count := count, inl := inl == 1 }, cs)
+
+/-- header of a map data slab: `d(id,next,size,first,inl,any,grp)` -/
+structure MapHead where
+  id : SlabID
+  next : SlabID
+  inl : Bool
+  anySize : Bool
+  group : Bool
+
+def pMapHead : P MapHead := fun cs => do
+  let (_, cs) ← pLit "d(" cs
+  let (id, cs) ← pID cs
+  let (_, cs) ← pLit "," cs
+  let (next, cs) ← pID cs
+  let (_, cs) ← pLit "," cs
+  let (_, cs) ← pNat cs
+  let (_, cs) ← pLit "," cs
+  let (_, cs) ← pNat cs
+  let (_, cs) ← pLit "," cs
+  let (inl, cs) ← pNat cs
+  let (_, cs) ← pLit "," cs
+  let (a, cs) ← pNat cs
+  let (_, cs) ← pLit "," cs
+  let (g, cs) ← pNat cs
+  let (_, cs) ← pLit ")" cs
+  pure ({ id := id, next := next, inl := inl == 1, anySize := a == 1, group := g == 1 }, cs)
+
+mutual
+/-- `<size>:<desc>`; printed sizes of nested forms are not kept: the model computes them, and the
+    dump of the parsed slab must reproduce the input -/
+partial def pSized : P Stor := fun cs => do
+  let (size, cs) ← pNat cs
+  let (_, cs) ← pLit ":" cs
+  match cs with
+  | 'v' :: rest => do
+    let (p, cs) ← pNat rest
+    pure (.val size p, cs)
+  | 'R' :: rest => do
+    let (id, cs) ← pID rest
+    pure (.ref id, cs)
+  | 'W' :: '(' :: rest => do
+    let (x, cs) ← pSized rest
+    let (_, cs) ← pLit ")" cs
+    pure (.some x, cs)
+  | 'D' :: _ => do
+    let (h, cs) ← pArrHead cs
+    let (ty, cs) ← pOptTy cs
+    let (_, cs) ← pLit "[" cs
+    let (es, cs) ← pSepUntil pSized ',' ']' cs
+    match ty with
+    | some t => pure (.arr t h.id.idx es, cs)
+    | none => none
+  | 'd' :: _ => do
+    let (h, cs) ← pMapHead cs
+    let (x, cs) ← pOptMapExtra cs
+    let (els, cs) ← pMEls cs
+    match x with
+    | some x => pure (.map x h.id.idx els, cs)
+    | none => none
+  | _ => none
+partial def pSEl : P SEl := fun cs => do
+  let (_, cs) ← pLit "S(" cs
+  let (_, cs) ← pNat cs
+  let (_, cs) ← pLit "," cs
+  let (k, cs) ← pSized cs
+  let (_, cs) ← pLit "," cs
+  let (v, cs) ← pSized cs
+  let (_, cs) ← pLit ")" cs
+  pure (.mk k v, cs)
+partial def pMEl : P MEl := fun cs =>
+  match cs with
+  | 'S' :: _ => do
+    let (e, cs) ← pSEl cs
+    pure (.single e, cs)
+  | 'I' :: '(' :: rest => do
+    let (_, cs) ← pNat rest
+    let (_, cs) ← pLit "," cs
+    let (els, cs) ← pMEls cs
+    let (_, cs) ← pLit ")" cs
+    pure (.inl els, cs)
+  | 'X' :: '(' :: rest => do
+    let (_, cs) ← pNat rest
+    let (_, cs) ← pLit "," cs
+    let (id, cs) ← pID cs
+    let (_, cs) ← pLit ")" cs
+    pure (.ext id, cs)
+  | _ => none
+partial def pMEls : P MEls := fun cs =>
+  match cs with
+  | 'H' :: '(' :: rest => do
+    let (level, cs) ← pNat rest
+    let (_, cs) ← pLit "," cs
+    let (_, cs) ← pNat cs
+    let (_, cs) ← pLit "){" cs
+    let (hkeys, cs) ← pSepUntil pNat ',' '}' cs
+    let (_, cs) ← pLit "[" cs
+    let (es, cs) ← pSepUntil pMEl ' ' ']' cs
+    pure (.hkey level hkeys es, cs)
+  | 'L' :: '(' :: rest => do
+    let (level, cs) ← pNat rest
+    let (_, cs) ← pLit "," cs
+    let (_, cs) ← pNat cs
+    let (_, cs) ← pLit ")[" cs
+    let (es, cs) ← pSepUntil pSEl ' ' ']' cs
+    pure (.single level es, cs)
+  | _ => none
+end
+
+/-- the flat element, if the storable is one -/
+def storToElem? : Stor → Option Elem
+  | .val s p => some { size := s, pay := .val p }
+  | .ref id => some { size := slabIDStorableSize, pay := .ref id }
+  | _ => none
+
+def pMChildHdr : P MChildHdr := fun cs => do
+  let (id, cs) ← pID cs
+  let (_, cs) ← pLit "/" cs
+  let (size, cs) ← pNat cs
+  let (_, cs) ← pLit "/" cs
+  let (fk, cs) ← pNat cs
+  pure ({ id := id, size := size, firstKey := fk }, cs)
+
+def pSlab : P Slab := fun cs =>
+  match cs with
+  | 'D' :: _ => do
+    let (h, cs) ← pArrHead cs
+    let (ty, cs) ← pOptTy cs
+    let (_, cs) ← pLit "[" cs
+    let (es, cs) ← pSepUntil pSized ',' ']' cs
+    match es.mapM storToElem? with
+    | some flat =>
+      pure (.data ty { hdr := { id := h.id, size := h.size, count := h.count }, next := h.next, elems := flat,
+                       root := ty.isSome, inlined := h.inl }, cs)
+    | none => if h.inl then none else pure (.adata { id := h.id, next := h.next, ty := ty, elems := es }, cs)
+  | 'd' :: _ => do
+    let (h, cs) ← pMapHead cs
+    let (x, cs) ← pOptMapExtra cs
+    let (els, cs) ← pMEls cs
+    if h.inl then none
+    else pure (.mdata { id := h.id, next := h.next, extra := x, els := els, anySize := h.anySize, group := h.group }, cs)
+  | 'm' :: '(' :: rest => do
+    let (id, cs) ← pID rest
+    let (_, cs) ← pLit "," cs
+    let (_, cs) ← pNat cs
+    let (_, cs) ← pLit "," cs
+    let (_, cs) ← pNat cs
+    let (_, cs) ← pLit ")" cs
+    let (x, cs) ← pOptMapExtra cs
+    let (_, cs) ← pLit "{" cs
+    let (hs, cs) ← pSepUntil pMChildHdr ';' '}' cs
+    pure (.mindex { id := id, extra := x, childHdrs := hs }, cs)
+  | 'V' :: '(' :: rest => do
+    let (id, cs) ← pID rest
+    let (_, cs) ← pLit "," cs
+    let (x, cs) ← pSized cs
+    let (_, cs) ← pLit ")" cs
+    match storToElem? x with
+    | some e => pure (.storable id e, cs)
+    | none => pure (.storableG id x, cs)
+  | _ => none
+
+/-- array index slabs keep the original (string-splitting) parser -/
+def parseDumpOld (s : String) : Option Slab :=
+  if s.startsWith "M(" then do
     let (hd, rest) ← cut (sdrop s 2) ")"
     match hd.splitOn "," with
     | [id, size, count] => do
@@ -140,13 +414,14 @@ def parseDump (s : String) : Option Slab :=
       pure (.index ty { hdr := { id := id, size := size, count := count }, childHdrs := hs, countSum := sums,
                         children := [], root := ty.isSome })
     | _ => none
-  else if s.startsWith "V(" then do
-    let body ← stripSuffix (sdrop s 2) ")"
-    let (id, e) ← cut body ","
-    let id ← parseID id
-    let e ← parseElem e
-    pure (.storable id e)
   else none
+
+def parseDump (s : String) : Option Slab :=
+  if s.startsWith "M(" then parseDumpOld s
+  else
+    match pSlab s.toList with
+    | some (slab, []) => some slab
+    | _ => none
 
 /-! ### expected observations -/
 
@@ -182,27 +457,48 @@ def check (s : CodecState) (ok : Bool) (msg : Unit → String) : CodecState :=
 
 def short (str : String) : String := if str.length > 600 then stake str 600 ++ "…" else str
 
-/-- one `ENC` line: four comparisons -/
-def stepENC (s : CodecState) (dump hex : String) (size : Nat) (lineNo : Nat) : CodecState :=
+/-- does the encoder write some inlined map of the slab in the compact form -/
+def usesCompact : Slab → Bool
+  | .adata a => (encSts a.elems []).2.any (fun x => match x with | .cmap _ _ _ => true | _ => false)
+  | .mdata m => (encMEls m.els []).2.any (fun x => match x with | .cmap _ _ _ => true | _ => false)
+  | _ => false
+
+/-- the 16 bytes of an undefined sibling link that a non-root data slab does not write -/
+def omittedNext : Slab → Nat
+  | .data _ d => if !d.root && d.next == SlabID.undef then 16 else 0
+  | .adata a => if a.ty.isNone && a.next == SlabID.undef then 16 else 0
+  | .mdata m => if m.extra.isNone && m.next == SlabID.undef then 16 else 0
+  | _ => 0
+
+/-- one `ENC` line: six comparisons -/
+def stepENC (s : CodecState) (dump hex : String) (decDump : String) (size : Nat) (lineNo : Nat) : CodecState :=
   match parseDump dump, parseHex hex with
   | some slab, some bytes =>
     let s := { s with rep := (s.rep.tag "ENC") }
+    -- every size the implementation keeps in a header field equals the size the model computes
+    let rd := dumpSlab slab
+    let s := s.check (rd == dump) (fun _ =>
+      s!"line {lineNo}: the parsed slab dumps as {short rd}, implementation's dump is {short dump}")
     let enc := encodeSlab slab
     let s := s.check (enc == bytes) (fun _ =>
       s!"line {lineNo}: ENC bytes differ for {short dump}: model {short (renderHex enc)}, implementation {short hex}")
     let s := s.check (slab.byteSize == size) (fun _ =>
       s!"line {lineNo}: ENC size differs for {short dump}: model {slab.byteSize}, implementation {size}")
     -- the length law of C06 on the implementation's bytes, evaluated by the model's bookkeeping
-    let omitted := match slab with
-      | .data _ d => if !d.root && d.next == SlabID.undef then 16 else 0
-      | _ => 0
-    let s := s.check (bytes.length + omitted == slab.byteSize + slab.extraDataLen) (fun _ =>
-      s!"line {lineNo}: ENC length law fails for {short dump}: {bytes.length} + {omitted} ≠ {slab.byteSize} + {slab.extraDataLen}")
+    let omitted := omittedNext slab
+    let compact := usesCompact slab
+    let s := s.check (if compact then bytes.length + omitted ≤ slab.byteSize + slab.extraDataLen
+                      else bytes.length + omitted == slab.byteSize + slab.extraDataLen) (fun _ =>
+      s!"line {lineNo}: ENC length law fails for {short dump}: {bytes.length} + {omitted} vs {slab.byteSize} + {slab.extraDataLen} (compact {compact})")
+    let s := if compact then { s with rep := s.rep.tag "ENC:compact" } else s
     match (decodeSlab slab.id bytes).run with
     | .ok s' _ =>
       let d' := dumpSlab s'
-      let s := s.check (d' == dump) (fun _ =>
-        s!"line {lineNo}: model decoding of the implementation's bytes dumps as {short d'}, implementation's slab is {short dump}")
+      let s := s.check (d' == decDump) (fun _ =>
+        s!"line {lineNo}: model decoding of the implementation's bytes dumps as {short d'}, implementation's decoded slab is {short decDump}")
+      -- the decoded form differs from the in-memory form only under the compact-map exception
+      let s := s.check (decDump == dump || compact) (fun _ =>
+        s!"line {lineNo}: decoded dump differs from the slab's dump although no compact map is encoded: {short dump}")
       s.check (s'.byteSize == size) (fun _ =>
         s!"line {lineNo}: model-decoded size {s'.byteSize}, implementation {size}")
     | .error _ _ => (s.check false (fun _ => s!"line {lineNo}: model decoder rejects the implementation's bytes of {short dump}"))
@@ -210,13 +506,22 @@ def stepENC (s : CodecState) (dump hex : String) (size : Nat) (lineNo : Nat) : C
   | none, _ => s.note s!"line {lineNo}: cannot parse dump {short dump}"
   | _, none => s.note s!"line {lineNo}: cannot parse hex"
 
+/-- `cbor.Unmarshal(data, &uint64)` -/
+def obsUnmarshal (data : Bytes) : String :=
+  match unmarshalUint64 data with
+  | some n => s!"OBS ok:{n}"
+  | none => "OBS err"
+
 def stepLine (s : CodecState) (line : String) (lineNo : Nat) : CodecState :=
   let s := { s with rep := { s.rep with lines := s.rep.lines + 1 } }
   match line.splitOn " " with
-  | "ENC" :: dump :: hex :: rest =>
-    let size := (fnat (fields rest) "size").getD 0
+  | "ENC" :: hex :: sz :: "|" :: _ =>
+    let size := (fnat (fields [sz]) "size").getD 0
     let s := { s with rep := { s.rep with ops := s.rep.ops + 1 } }
-    s.stepENC dump hex size lineNo
+    match line.splitOn " | " with
+    | [_, dump] => s.stepENC dump hex dump size lineNo
+    | [_, dump, dec] => s.stepENC dump hex dec size lineNo
+    | _ => s.note s!"line {lineNo}: cannot parse ENC line"
   | "DEC" :: hex :: rest =>
     let s := { s with rep := { (s.rep.tag "DEC") with ops := s.rep.ops + 1 } }
     let s := if s.pending.isEmpty then s else s.note s!"line {lineNo}: model expected {s.pending} before this DEC"
@@ -235,6 +540,12 @@ def stepLine (s : CodecState) (line : String) (lineNo : Nat) : CodecState :=
     | some bytes => { s with pending := [obsCbor bytes] }
     | none => s.note s!"line {lineNo}: cannot parse CBR line"
   | ["CBR"] => { s with rep := (s.rep.tag "CBR"), pending := [obsCbor []] }
+  | "UMI" :: hex :: _ =>
+    let s := { s with rep := { (s.rep.tag "UMI") with ops := s.rep.ops + 1 } }
+    match parseHex hex with
+    | some bytes => { s with pending := [obsUnmarshal bytes] }
+    | none => s.note s!"line {lineNo}: cannot parse UMI line"
+  | ["UMI"] => { s with rep := (s.rep.tag "UMI"), pending := [obsUnmarshal []] }
   | "OBS" :: _ =>
     match s.pending with
     | exp :: rest =>
